@@ -30,6 +30,8 @@ def run(ctx):
         if not r["violated"]:
             raise MachineryError(f"regression config '{name}' no longer violates LabelsValid: invariant vacuous?")
     c03.run(ctx, owned=OWNED, extra="c06")
+    from . import c11
+    c11.run(ctx, owned=OWNED)
     # ---- bond charges of constructed operators (code -> spec)
     cases = c01.emit_cases(ctx, "quick")
     flat = c01.replay_all(ctx, cases, sample=600 if ctx.tier == "quick" else 4000)
